@@ -545,6 +545,9 @@ func c08Scenarios(tier string) []Scenario {
 		out = append(out, c08Group(c08GroupParams{Group: 3, FirstGate: false, Others: 0, Maxpend: 0, Dotu: true, Split: true, P: 1}))
 		out = append(out, c08AcrossVersion(false, 0, 2), c08AcrossVersion(true, 2, 2))
 		out = append(out, c08FsrvScenarios(0)...)
+		for i, pr := range [][2]string{{"clunk", "stat"}, {"clunk", "clone"}, {"remove", "stat"}, {"clunk", "open"}} {
+			out = append(out, c08ClunkRacingUse(pr[0], pr[1], i%2 == 0, i%3, 2))
+		}
 		out = append(out, c08UfsSlowHost("f", true, 0, 0), c08UfsSlowHost("d", false, 2, 0), c08UfsSlowHost("f", false, 1, 1))
 		out = append(out, c08FlushSharedTag(false, 0, 1), c08FlushSharedTag(true, 2, 1))
 		// an authentication exchange waiting inside AuthRead, more traffic on the same auth fid and elsewhere
@@ -589,6 +592,9 @@ func c08Scenarios(tier string) []Scenario {
 	}
 	out = append(out, c08FsrvScenarios(0)...)
 	out = append(out, c08FsrvScenarios(1)...)
+	for i, pr := range [][2]string{{"clunk", "stat"}, {"clunk", "clone"}, {"remove", "stat"}, {"clunk", "open"}, {"remove", "clone"}} {
+		out = append(out, c08ClunkRacingUse(pr[0], pr[1], i%2 == 0, i%3, 3))
+	}
 	out = append(out, c08UfsSlowHost("f", true, 0, 0), c08UfsSlowHost("d", false, 2, 0), c08UfsSlowHost("f", false, 1, 2), c08UfsSlowHost("d", true, 0, 2))
 	for _, mp := range []int{0, 1, 2} {
 		out = append(out, c08FlushSharedTag(mp == 1, mp, 2))
